@@ -1034,6 +1034,27 @@ pub mod verif {
     do_remapping_loop_one_device(&mut driver, layout, false)
   }
   
+  // One register_poll + poll of the REAL driver on caller-supplied fds: what the
+  // mio/epoll adapter reports for them (e.g. after the other end has gone away).
+  pub fn real_driver_poll_once(keyboard_fd: std::os::unix::io::RawFd, tablet_fd: Option<std::os::unix::io::RawFd>,
+                               out_fd: std::os::unix::io::RawFd, timeout: Option<Duration>) -> Result<VPollResult, String> {
+    let rw = RW {
+      r: DevInputReader { fd: keyboard_fd },
+      w: DevInputWriter::verif_from_fd(out_fd),
+      t: tablet_fd.map(|fd| TabletModeSwitchReader { fd })
+    };
+    let mut driver = RealDriver { rw };
+    let mut registry = driver.register_poll()?;
+    Ok(match driver.poll(&mut registry, timeout)? {
+      PollResult::DeviceEvent(devs) => VPollResult::DeviceEvent(devs.into_iter().map(|d| match d {
+        Device::Keyboard => VDevice::Keyboard,
+        Device::Tablet => VDevice::Tablet
+      }).collect()),
+      PollResult::TimedOut => VPollResult::TimedOut,
+      PollResult::Interrupted => VPollResult::Interrupted
+    })
+  }
+  
   // (device name, excluded) for the keyboards listed by --all-keyboards
   pub fn flag_excluded_names(devices: Vec<ExtractedKeyboard>, excludes: &[&str]) -> Vec<(String, bool)> {
     flag_excluded(devices, excludes).into_iter().map(|d| (d.extracted_keyboard.name, d.excluded)).collect()
